@@ -873,7 +873,7 @@ int main(int argc, char** argv)
             Real3 a{d[1], d[2], d[3]}, b{d[5], d[6], d[7]};
             std::cout << hv(calc_exiting_direction({d[0], a}, {d[4], b})) << "\n";
         }
-        else if (op.size() > 1 && op[0] == 'x')
+        else if (op == "x")
         {
             std::cout << oracle.run(w) << "\n";
         }
